@@ -34,7 +34,7 @@ for i in ids:
 
 m = {
     "version": 1,
-    "setup_cmd": "cd /verif/harness && CARGO_NET_OFFLINE=true cargo build --bins",
+    "setup_cmd": "cd /verif/harness && CARGO_NET_OFFLINE=true cargo build --bins && CARGO_NET_OFFLINE=true cargo build --profile ship --bin dec_worker && (RUSTFLAGS='--cfg y_crdt_y_crdt_verif -Zsanitizer=address' CARGO_NET_OFFLINE=true cargo +nightly build --profile ship --bin dec_worker --target x86_64-unknown-linux-gnu --target-dir /verif/target/asan || true)",
     "hooks": {
         "guard": "--cfg y_crdt_y_crdt_verif",
         "enable": "RUSTFLAGS/--cfg y_crdt_y_crdt_verif set in /verif/harness/.cargo/config.toml; the harness path-depends on /repo/yrs, so every check rebuilds /repo's working tree with the hooks on",
